@@ -2,7 +2,7 @@
 import re
 
 from ..guards import cmp_facts, ne, sh, upper_bound
-from ..mir import parent_fn, read_places
+from ..mir import norm, parent_fn, read_places
 from ..panics import label_names
 
 LEX = "syntax::scanner::Lexer::"
@@ -602,11 +602,16 @@ def r5_renderer_boundaries(ctx):
         ctx.ok("no-span-arithmetic-outside-scanner", "src", "%d bodies outside scanner/parser: spans are only copied and compared" % m)
 
 
+PLACEHOLDER = "placeholder"
+
+
 def r3b_parser_spans_are_ordered(ctx):
     """The parser only combines spans: start of one, end of another.  Tokens are consumed left to right, so the span whose
     start is used must have been obtained no later than the span whose end is used - otherwise start > end, and the renderer
     (which slices the source with it) panics."""
-    def src_blocks(fn, op, now, depth=0):
+    def src_blocks(fn, op, now, depth=0, proj=None):
+        """Blocks in which the span behind `op` was read from the token stream; PLACEHOLDER for a span that was not read at all
+        (`Range::default()`, i.e. 0..0)."""
         pl = (op.get("move") or op.get("copy")) if isinstance(op, dict) else None
         if pl is None:
             return None
@@ -617,10 +622,21 @@ def r3b_parser_spans_are_ordered(ctx):
         defs = fn.whole_defs(root)
         if not defs:
             return None
+        fields = [e["f"] for e in pl["p"] if isinstance(e, dict) and "f" in e] if proj is None else proj
         out = set()
         for (b, k, st) in defs:
-            if k != "t" and st["rv"]["k"] == "use" and depth < 6:
+            if k == "t":
+                cal = norm(st.get("res") or st.get("callee") or "") or ""
+                if cal.endswith("::default") and "Range" in fn.locals[root]["ty"] + cal:
+                    out.add(PLACEHOLDER)
+                else:
+                    out.add(b)
+            elif st["rv"]["k"] == "use" and depth < 6:
                 r = src_blocks(fn, st["rv"]["a"], b, depth + 1)
+                out |= (r if r is not None else {b})
+            elif st["rv"]["k"] == "agg" and st["rv"].get("adt") in (None, "tuple", "(tuple)", "") and fields and depth < 6 and str(fields[0]).isdigit() and int(fields[0]) < len(st["rv"]["ops"]):
+                # a component of a tuple built here (`let (name, name_span) = match .. { .. => ("_", span) }`)
+                r = src_blocks(fn, st["rv"]["ops"][int(fields[0])], b, depth + 1)
                 out |= (r if r is not None else {b})
             else:
                 out.add(b)
@@ -641,6 +657,14 @@ def r3b_parser_spans_are_ordered(ctx):
                 ordn = sum(1 for r in ctx.records if r["rule"] == ctx.rule and r["instance"].startswith("span-order|%s#" % short))
                 if A is None or B is None:
                     ctx.bad("span-order|%s|unknown|%s" % (short, txt), fn.where(b), "cannot see where the bounds of the span `%s` come from" % txt)
+                elif PLACEHOLDER in B and A - {PLACEHOLDER}:
+                    ctx.bad("span-order|%s|placeholder-end|%s" % (short, re.sub(r"\s+", "", txt)), fn.where(b), "%s builds the span `%s` whose end can be the end of a placeholder span (Range::default(), 0..0) while its start is a position read from the token stream: start > end for every such input that does not begin at offset 0, and rendering the diagnostic slices the source with an inverted range (panic)" % (short, txt))
+                elif PLACEHOLDER in A | B:
+                    A2, B2 = A - {PLACEHOLDER}, B - {PLACEHOLDER}
+                    if all(any(fn.dominates(a, bb) for a in A2) for bb in B2) or not A2:
+                        ctx.ok("span-order|%s#%d" % (short, ordn + 1), fn.where(b), "%s: start is 0 or obtained no later than end" % txt)
+                    else:
+                        ctx.bad("span-order|%s|%s" % (short, re.sub(r"\s+", "", txt)), fn.where(b), "%s builds the span `%s` with a start that was read from the token stream after its end" % (short, txt))
                 elif all(any(fn.dominates(a, bb) for a in A) for bb in B):
                     ctx.ok("span-order|%s#%d" % (short, ordn + 1), fn.where(b), "%s: start obtained no later than end" % txt)
                 else:
